@@ -199,7 +199,9 @@ class WsRef(WsSendModel):
                 return None
             if self.state != "handshake":
                 return False
-            return True  # stored; defects in it surface with the first body message
+            if "ctl" in d:
+                return None  # control characters may be refused here or with the first body message
+            return True
         if t == "websocket.http.response.body":
             if limbo:
                 return None
